@@ -152,6 +152,8 @@ def _decode(b: bytes):
     case["rawtcp"] = bool(o & 2) or bool(o & 4)
     case["show_ignored"] = (o >> 3) % 8 == 0
     case["coalesce"] = (o >> 6) == 3
+    # a user addon's tls_clienthello hook sets data.ignore_connection (documented way to pass a TLS connection through)
+    case["addon_ignore"] = flight["kind"] == "tls" and r.byte() % 6 == 0
     sf = r.byte()
     case["server_first"] = r.pick([b"220 ready\r\n", b"SSH-2.0-x\r\n"]) if sf < 40 and flight["kind"] == "raw" else b""
     case["tail"] = [[r.pick(["c", "s"]), r.pick([b"ping", b"\x00\xff" * 3, b"GET / HTTP/1.1\r\n\r\n", b"\r\n", b"pong" * 5])]
@@ -207,6 +209,7 @@ def _socks_request(host, port) -> bytes:
 
 
 EVID_TLS = {"tls_clienthello", "tls_start_client"}   # the hello was parsed in order to terminate TLS
+EVID_TLS_TERM = {"tls_start_client"}
 EVID_TLS_UP = {"tls_start_server"}                   # mitmproxy starts its own TLS session with the server
 EVID_HTTP = {"requestheaders", "request"}
 EVID_TCP = {"tcp_start", "tcp_message"}
@@ -224,7 +227,11 @@ def run_once(env, case, cuts, with_tail=True):
     ctx = make_context(env, spec)
     if mode == "transparent":
         ctx.server.address = (host, port)
-    d = AddonDriver(env, ctx)
+    def user_addon(cmd):
+        if cmd.name == "tls_clienthello" and case.get("addon_ignore"):
+            cmd.data.ignore_connection = True
+
+    d = AddonDriver(env, ctx, after=user_addon)
     d.start()
     client = ctx.client
     fb = flight_bytes(case["flight"])
@@ -259,7 +266,7 @@ def run_once(env, case, cuts, with_tail=True):
         d.recv(client, s)
         sent_c += s[len(pre):] if (first and pre and case["coalesce"]) else s
         first = False
-    stop = EVID_TLS | EVID_TLS_UP | EVID_HTTP
+    stop = (EVID_TLS_TERM if case.get("addon_ignore") else EVID_TLS | EVID_TLS_UP) | EVID_HTTP
     for who, data in (case["tail"] if with_tail else ()):
         if d.crashed or any(t[0] == "hook" and t[1] in stop for t in d.trace[nhooks_pre:]):
             break   # already intercepted (reported below): what happens to the follow-up bytes is not C19's topic
@@ -287,7 +294,7 @@ def run_once(env, case, cuts, with_tail=True):
         handshake_ok = True
     return {
         "crash": d.crashed, "addon_errors": list(env.addon_errors),
-        "tls": bool(EVID_TLS & set(names)), "tls_up": bool(EVID_TLS_UP & set(names)), "http": bool(http_hooks), "tcp": bool(EVID_TCP & set(names)),
+        "tls": bool(EVID_TLS & set(names)), "tls_term": bool(EVID_TLS_TERM & set(names)), "tls_up": bool(EVID_TLS_UP & set(names)), "http": bool(http_hooks), "tcp": bool(EVID_TCP & set(names)),
         "names": names, "to_server": b"".join(d.out(s) for s in d.servers), "to_client": cout,
         "servers": [tuple(s.address) if s.address else None for s in d.servers],
         "sent_c": sent_c, "sent_s": sent_s, "handshake_ok": handshake_ok,
@@ -352,7 +359,11 @@ def check_case(case, ctx):
     for idx, cuts in enumerate(runs):
         if idx:
             ctx.ev()
-        o = run_once(env, case, cuts, with_tail=excl)
+        by_addon = bool(case.get("addon_ignore")) and not excl
+        # a TLS first segment below the documented 3-byte minimum is classified before TLS can be recognised:
+        # no pass-through can be demanded then, so no follow-up traffic is sent either
+        below = kind == "tls" and (cuts[0] if cuts else 3) < 3
+        o = run_once(env, case, cuts, with_tail=(excl and (addr_only or not below)) or (by_addon and not below))
         sc = _split_class(case, cuts, o["first_seg"])
         # bucket = oracle clause + root-cause class (mode, header case and position go into the histogram only)
         tag = "%s,src=%s%s,%s" % (kind, src, (",ows=none" if hc.startswith("ows=none") else ",ows") if hc else "", sc)
@@ -364,6 +375,23 @@ def check_case(case, ctx):
         if not o["handshake_ok"]:
             raise HarnessError("proxy handshake failed in harness: %r %r" % (case, o["names"]))
         below_min = kind == "tls" and sc == "tls-first<3"
+        if by_addon:
+            # rules do not exclude the connection, but an addon asked for pass-through in tls_clienthello:
+            # ClientTLSLayer must relay everything (including the buffered ClientHello) and terminate nothing
+            if below_min:
+                ctx.cls("below-tls-minimum")
+            else:
+                atag = "tls,addon-ignore,%s" % sc
+                if o["tls_term"] or o["http"]:
+                    ctx.fail("addon-ignored-but-intercepted:" + atag, "hooks=%r" % (o["names"],))
+                else:
+                    if o["to_server"] != o["sent_c"]:
+                        ctx.fail("addon-ignored-relay-to-server:" + atag, "client sent %r, server got %r" % (o["sent_c"], o["to_server"]))
+                    if o["to_client"] != o["sent_s"]:
+                        ctx.fail("addon-ignored-relay-to-client:" + atag, "server sent %r, client got %r" % (o["sent_s"], o["to_client"]))
+                ctx.nt((mode, tuple(case["addr"]), repr(fl), tuple(cuts or ()), case["eager"], "addon"),
+                       "%s|tls|addon-ignore|%s" % (mode, sc))
+            continue
         if excl:
             if below_min and not addr_only:
                 ctx.cls("below-tls-minimum")
